@@ -126,6 +126,8 @@ def check(ctx, case):
 			g = w.genomes[gi]
 			if ns:
 				paths.append(str(g['namesake']['path']))       # a different genome under the same file name (same label)
+			elif a == 'ln':
+				paths.append(str(g['link']))                   # the genome through a symbolic link with another base name
 			elif a == 'mm':
 				paths.append(str(w.multi_member_gz(g)))        # the same genome as a multi-member gzip file
 			else:
@@ -181,7 +183,7 @@ def run(ctx):
 			nsk = [False] * len(g)
 			alt = [rng.random() < 0.4 for _ in g]
 			if chan == 'pos':
-				alt = [('mm' if rng.random() < 0.15 else a) for a in alt]
+				alt = [('mm' if rng.random() < 0.15 else ('ln' if rng.random() < 0.15 else a)) for a in alt]
 				if rng.random() < 0.4:
 					# the genome and its namesake (same label, different content) in one batch, in either order
 					i = rng.randrange(len(g))
